@@ -1091,7 +1091,7 @@ class LShift(Contract):
     name = "pysnark.runtime:LinComb.__lshift__"
 
     def configs(self, tier):
-        return [dict(mode=m, k=k, **({"raises_only": True} if k < 0 else {})) for m in ("plain", "g0") for k in (0, 1, 5, -1)]
+        return [dict(mode=m, k=k, **({"raises_only": True} if k < 0 else {})) for m in ("plain", "g0") for k in (0, 1, 5, 254, 300, -1)]      # 2^254 and 2^300 exceed every supported prime
 
     def setup(self, c, cfg):
         apply_mode(c, cfg["mode"])
